@@ -426,12 +426,12 @@ func RuleL1(c *Ctx) {
 		reg := callsTo(fn, "bandersnatch/fr", "Element", "ToBigIntRegular")
 		mont := callsTo(fn, "bandersnatch/fr", "Element", "ToBigInt")
 		sm := callsTo(fn, gbs, "PointProj", "ScalarMultiplication")
-		ok := len(reg) == 1 && len(mont) == 0 && len(sm) == 1
+		ok := len(reg) == 1 && len(mont) == 0 && len(sm) == 1 && len(core.CallsIn(fn)) == 2 && core.PostDominatesEntry(fn, sm[0])
 		if ok {
 			ok = core.PathOf(reg[0].Call.Args[0]) == "*(p:scalarMont)" && sm[0].Call.Args[2] == reg[0].Call.Args[1] &&
 				core.PathOf(sm[0].Call.Args[0]) == "p:p.inner" && core.PathOf(sm[0].Call.Args[1]) == "p:p1.inner" && core.Precedes(fn, reg[0], sm[0])
 		}
-		c.Check(ok, "L1", "Element.ScalarMul", fn.Pos(), "ScalarMul does not multiply p1 by the regular-form (non-Montgomery) integer of its scalar", "scalar.ToBigIntRegular(&big) then inner.ScalarMultiplication(&p1.inner, &big)")
+		c.Check(ok, "L1", "Element.ScalarMul", fn.Pos(), "ScalarMul does not, on every path, multiply p1 by the regular-form (non-Montgomery) integer of its scalar through PointProj.ScalarMultiplication (and nothing else)", "scalar.ToBigIntRegular(&big) then inner.ScalarMultiplication(&p1.inner, &big)")
 	} else {
 		c.Unresolved("L1", "banderwagon.(*Element).ScalarMul")
 	}
